@@ -791,12 +791,17 @@ pub struct MustMay {
 }
 
 pub fn must_may(p: &Prog, cap: usize) -> MustMay {
+    must_may_opt(p, cap, true)
+}
+
+/// `allow_spurious = false`: the behaviours on schedules without spurious wake-ups
+pub fn must_may_opt(p: &Prog, cap: usize, allow_spurious: bool) -> MustMay {
     let m = outcomes(p, &Policy::documented(), cap);
     let mut may = m.outcomes.clone();
     let mut complete = m.complete;
     let mut states = m.states;
     for pol in relevant_policies(p) {
-        if pol == Policy::documented() {
+        if pol == Policy::documented() || (pol.spurious_park && !allow_spurious) {
             continue;
         }
         let r = outcomes(p, &pol, cap);
